@@ -1,5 +1,6 @@
 (* Model of onl/scheduler/sp.py (SP) over Elem/SchedBase.v.
-   SP.__init__ sorts the priority table by descending priority (Python's sorted(..., reverse=True) is stable: equal
+   SP.__init__ sorts the priority table (keyed by class id; flow2class maps flows to classes, put() files a packet in
+   the store of its class) by descending priority (Python's sorted(..., reverse=True) is stable: equal
    priorities keep their declaration order).  run() scans that list; a class with prio <= 0 is never looked at; the
    test is store.size() != 0; after a transmission the repaired code leaves the for-loop (`break`), so the scan
    restarts from the highest priority.  [fixed = false] is the loop as found at the pinned commit: it continues with
@@ -19,11 +20,13 @@ Fixpoint sort_desc (l : list (Z * Z)) : list (Z * Z) :=
 
 Definition sp_slot (x : Z * Z) : Z * nat := (fst x, if Z.ltb 0 (snd x) then 1%nat else 0%nat).
 
-Definition sp_cfg (fixed : bool) (r : Q) (tbl : list (Z * Z)) : mq_cfg :=
-  {| rate := r; pass := map sp_slot (sort_desc tbl); by_count := false; brk := fixed |}.
+(* cm = flow2class; tbl = the priority table, keyed by CLASS id; fl = the flows the Monitor model reports *)
+Definition sp_cfg (fixed : bool) (r : Q) (cm : Z -> Z) (fl : list Z) (tbl : list (Z * Z)) : mq_cfg :=
+  {| rate := r; pass := map sp_slot (sort_desc tbl); by_count := false; brk := fixed; cls := cm; sflows := fl |}.
 
-Definition sp_act (r : Q) (tbl : list (Z * Z)) := mq_act (sp_cfg true r tbl).
-Definition sp_run (r : Q) (tbl : list (Z * Z)) (acts : list saction) := mq_run (sp_cfg true r tbl) (mq0 (sp_cfg true r tbl)) acts.
+Definition sp_act (r : Q) (cm : Z -> Z) (fl : list Z) (tbl : list (Z * Z)) := mq_act (sp_cfg true r cm fl tbl).
+Definition sp_run (r : Q) (cm : Z -> Z) (fl : list Z) (tbl : list (Z * Z)) (acts : list saction) :=
+  mq_run (sp_cfg true r cm fl tbl) (mq0 (sp_cfg true r cm fl tbl)) acts.
 (* the run() loop of the pinned commit *)
-Definition sp_run_unfixed (r : Q) (tbl : list (Z * Z)) (acts : list saction) :=
-  mq_run (sp_cfg false r tbl) (mq0 (sp_cfg false r tbl)) acts.
+Definition sp_run_unfixed (r : Q) (cm : Z -> Z) (fl : list Z) (tbl : list (Z * Z)) (acts : list saction) :=
+  mq_run (sp_cfg false r cm fl tbl) (mq0 (sp_cfg false r cm fl tbl)) acts.
